@@ -2,25 +2,30 @@
 COMMON_NOTE = ("Theorems are about the real-number instance of the model (bt's TOL idealised to 0); axioms: only those of "
                "Coq's standard library reported by Print Assumptions (classical reals, and Classical_Prop.classic where listed in the evidence); "
                "the model is hand-written and tied to /repo by the correspondence run of this check (bit-exact float instance via extraction); "
-               "extraction, the OCaml driver and the Python harness are trusted; float rounding is not verified.")
+               "extraction, the OCaml driver and the Python harness are trusted (every engine suite also cross-checks the extracted binary against the kernel's vm_compute of the same "
+               "definitions on a sample of its cases); float rounding is not verified.")
 CHECKS = {
-    "C01": {"text": "Theorem (all trees, dates, paper behaviours): StrategyBase.update / SecurityBase.update establish the balance-sheet "
-                    "predicate (value = cash + children, notional = sum |child notional|, security value = position x price x multiplier, "
-                    "child weight = value / parent value) on every well-formed tree. Correspondence: raw private state after every operation "
-                    "of generated histories, bit-exact against the float instance of the same model text; oracle on observed states.",
-            "note": COMMON_NOTE + " WF-preservation by every operation and the bankruptcy-date weight clause are not yet theorems (the latter is known finding K10)."},
+    "C01": {"text": "Theorems (all declaration trees, data, operation sequences, dates, paper behaviours): construction establishes the well-formedness invariant, every "
+                    "operation (update, adjust, allocate, transact, rebalance, close, flatten, property reads, lazily created children) preserves it, and on every "
+                    "well-formed tree StrategyBase.update / SecurityBase.update establish the balance-sheet predicate (value = cash + children, notional = sum |child "
+                    "notional|, security value = position x price x multiplier, child weight = value / parent value): hence the balance sheet holds after the update of "
+                    "EVERY reachable state (the one exception, stated in the theorem: the update on which a root goes bankrupt with every position already flat leaves "
+                    "the tree stale). Correspondence: raw private state after every operation of generated histories, bit-exact against the float instance of the same "
+                    "model text; oracle on observed states.",
+            "note": COMMON_NOTE},
     "C12": {"text": "Theorems for every timestamp (no bound) and every index: month/day ranges, ISO (year, week) pairs equal iff same Monday-based week, "
                     "compare_dates true iff the period identifiers differ (day / ISO week / month / quarter / year), RunPeriod never fires on the synthetic row, "
                     "fires on interior dates exactly on period changes (begin and end-of-period modes), first/last dates by flag; RunOnce and RunAfterDays over "
                     "arbitrary call sequences; the last-date clause is refuted by a checked witness (known finding K11). Correspondence: calendar vs pandas over the "
                     "Timestamp range, exhaustive enumeration of flag triples x boundary-date subsets, random call sequences for the counting schedulers.",
-            "note": COMMON_NOTE + " RunEveryNPeriods / RunOnDate / RunAfterDate are covered by correspondence and oracle only."},
+            "note": COMMON_NOTE + " RunOnDate / RunAfterDate (exactly on / strictly after), RunEveryNPeriods (once per distinct date; the k-th distinct date fires iff k = offset mod n) are theorems too."},
     "C13": {"text": "Axiom-free theorems for every stack, result pattern and run_always placement, in both execution modes: which algos are invoked and in which "
                     "order (prefix up to the first False, then the later run_always=True algos), what the stack reports, that the two modes agree when nothing is marked, "
                     "Or invokes every branch once and reports the disjunction, Not inverts; instantiated on the interpreter for stacks of test doubles. "
                     "Correspondence: exhaustive truth tables (length <= 4/5, 6 kinds per slot, two runs) and random nested stacks on the real AlgoStack / Strategy.run, "
                     "plus whole backtests with Require / Or / Not / RunIfOutOfBounds compared through per-run temp traces.",
-            "note": COMMON_NOTE + " RunIfOutOfBounds and the per-run temp reset are decided by correspondence, not yet by theorems."},
+            "note": COMMON_NOTE + " RunIfOutOfBounds (True iff some child with a target deviates relatively by more than the tolerance, on a fresh tree) and the per-run temp reset "
+                    "(temp cleared, perm and stack untouched, nothing else in the tree changed) are theorems; a dedicated long/short out-of-bounds suite exercises negative targets."},
 }
 CHECKS["C05"] = {
     "text": "Theorems (any commission function unless stated): a zero amount does nothing; a missing or zero price is refused with an error; "
@@ -45,13 +50,14 @@ CHECKS["C03"] = {
             "oracle on the recorded rows; metamorphic pairs (capital x4 with fractional positions and size-proportional costs give the same index).",
     "note": COMMON_NOTE + " Scale invariance of whole runs is decided by the metamorphic pairs; only the formula-level invariance is a theorem."}
 CHECKS["C08"] = {
-    "text": "Theorems (all five security classes): re-running SecurityBase.update for the same date returns the very same record (idempotence), and an update writes "
-            "only the row of its own date in every history (append-only). Correspondence + oracle: histories replayed with duplicated updates and reads of every "
+    "text": "Theorems: a second StrategyBase.update of the same date returns the very same tree, for every well-formed tree of any depth (values, prices, weights, every "
+            "history row, universe columns, paper copies not stepped again); the update of a node does not read the weight its parent gave it; re-running "
+            "SecurityBase.update (all five classes) returns the very same record, and an update writes only the row of its own date in every history (append-only). Correspondence + oracle: histories replayed with duplicated updates and reads of every "
             "accessor placed after updates (final states equal), pairs 'read on a stale tree' vs 'explicit update then read' (same returned value, same state), rows "
             "before the clock compared between consecutive steps, all series accessors checked not to extend beyond the current date; a scenario family around "
             "securities left idle over date changes.",
-    "note": COMMON_NOTE + " Idempotence of the strategy-level update is decided by the schedule suite, not yet by a theorem; comparisons use the 1e-9 relation because "
-            "coupons swept on the first update of a date re-associate a float sum."}
+    "note": COMMON_NOTE + " The tree-level theorem is over the reals; on floats the suite compares with the 1e-9 relation because coupons swept on the first update of a date "
+            "re-associate a float sum. Freshness of reads (stale flag) is decided by the schedule suite."}
 CHECKS["C02"] = {
     "text": "Theorems: a trade at the current (or a custom) price leaves 'parent cash + position marked at the current price' unchanged except for exactly the spread "
             "cost and the fee; every update makes each strategy's value its cash plus its children's values (so capital moved between a parent and a sub-strategy "
@@ -63,7 +69,7 @@ CHECKS["C16"] = {
             "the update of a non-root strategy never touches the flag; on a date whose update leaves the root flagged Backtest.run neither runs the algos nor updates again. "
             "Suite: leveraged/short weightings with price shocks through, onto and short of zero value (flat and nested); oracle: flag iff a recorded value is negative, "
             "all positions flat from that date, value and cash constant afterwards, no stack run afterwards, sub-strategies never flagged. Known findings K13, K5.",
-    "note": COMMON_NOTE + " 'Every position is closed' is false of the code for nested trees with costs / whole units (K13) and zero-value children (K5); for flat trees it is decided by oracle + correspondence."}
+    "note": COMMON_NOTE + " Theorem for flat strategies: the liquidation closes every security that has a value, for every commission function and spread (zero-value positions are left: K5). 'Every position is closed' is false of the code for nested trees with costs / whole units (K13) and zero-value children (K5); for flat trees it is decided by oracle + correspondence."}
 CHECKS["C17"] = {
     "text": "Theorems: notional after an update is market value (Security) / position (FixedIncomeSecurity, CouponPayingSecurity) / zero (hedge classes); strategy notional "
             "= sum |child notional| and notional weights (balance-sheet theorem); carry = position x coupon - cost x |position| on the long/short side, parked for the "
@@ -77,7 +83,7 @@ CHECKS["C06"] = {
             "close-out shortcut (any commission). Correspondence: whole backtests (Rebalance, cash fractions via base scaling, sub-strategy targets, RebalanceOverTime, "
             "successive rebalances) and engine histories with update=False chains, bit-exact; oracle: after every Rebalance of a fractional cost-free run each targeted "
             "child sits at its weight, every other child is closed and the remainder is cash.",
-    "note": COMMON_NOTE + " The whole-tree statement (all children at once, sub-strategy targets, integer positions within one unit, RebalanceOverTime in n steps) is decided by correspondence + oracle, not yet by theorems."}
+    "note": COMMON_NOTE + " RebalanceOverTime: the step targets cur + (target - cur) / days_left walk to the target in n equal steps (theorem on the arithmetic; that each step is reached is the single-allocation theorem). The whole-tree statement (all children at once, sub-strategy targets, integer positions within one unit) is decided by correspondence + oracle, not by theorems."}
 CHECKS["C14"] = {
     "text": "Theorems: the tradability filter shared by SelectAll / SelectThese / SelectWhere returns exactly the requested names with a present and (by default) positive current "
             "price, in order, and errors on a name outside the universe; hence with default flags nothing selected has a missing, zero or negative price; ranked selection: the "
@@ -87,16 +93,19 @@ CHECKS["C14"] = {
     "note": COMMON_NOTE + " random.sample and re.search are oracles (post-conditions tested, not proved); ResolveOnTheRun is not modelled."}
 CHECKS["C15"] = {
     "text": "Theorems: WeighEqually gives one entry per selected ticker, all equal, summing to one; LimitDeltas moves a target by at most the limit and leaves targets inside the "
-            "band untouched. Correspondence: per-run traces of temp['weights'] (WeighEqually / Specified / Target, ScaleWeights, LimitDeltas, LimitWeights incl. ffn's input checks) "
+            "band untouched; LimitWeights gives no weights when the cap is infeasible and otherwise respects the cap, keeps the tickers and preserves the total (under the "
+            "stated per-round condition that the weights below the cap do not sum to zero). Correspondence: per-run traces of temp['weights'] (WeighEqually / Specified / Target, ScaleWeights, LimitDeltas, LimitWeights incl. ffn's input checks) "
             "bit-exact against the interpreter; oracle on the traces (documented weights). WeighInvVol / ERC / MeanVar / Randomly, TargetVol and PTE_Rebalance: documented "
             "post-conditions recomputed with numpy over the documented [now - lag - lookback, now - lag] window on the real code (this found and fixed the TargetVol defect).",
-    "note": COMMON_NOTE + " ffn / sklearn / scipy kernels are oracles: their post-conditions are tested, not proved; limit_weights' cap-and-total statement is decided by oracle + correspondence."}
+    "note": COMMON_NOTE + " ffn / sklearn / scipy kernels are oracles: their post-conditions are tested, not proved; ffn.limit_weights divides by the sum of the weights below the cap: when that sum is zero the total is not preserved (NaN in Python) — the theorem states the condition."}
 CHECKS["C04"] = {
-    "category": "proof",
+    "category": "other",
+    "technique": "metamorphic perturbation of data dated after a cut (implementation and model) + model/implementation correspondence; partial machine-checked theorems (Coq/Rocq) on the window functions",
     "text": "Partial theorems: the tradability filter reads only the current row of the universe, lookback windows never reach past the current row, and window "
             "data counts are functions of the data prefix (any number type). The whole-run statement is decided by (a) perturbation pairs on the implementation: every "
             "generated backtest is re-run with every supplied value dated after a random cut replaced, and all history rows and per-run temp traces up to the cut must be "
-            "identical token for token; (b) the correspondence with the interpreter, which can only index data at rows <= now (market-value, nested and fixed-income runs).",
+            "identical token for token; (b) the correspondence with the interpreter, which can only index data at rows <= now (market-value, nested, fixed-income and risk "
+            "runs: UpdateRisk reads unit-risk frames by their own date index).",
     "note": COMMON_NOTE + " A whole-interpreter non-interference theorem is not proved; ffn / sklearn kernels are trusted not to read beyond their argument."}
 CHECKS["C20"] = {
     "text": "Theorems: UpdateRisk records unit risk x position x multiplier on a security (0 when flat) and the sum of the children's risks on every strategy of the tree; "
@@ -106,14 +115,15 @@ CHECKS["C20"] = {
             "and close dates; multi-measure / pseudo-inverse hedges: post-condition suite on the real code. Known finding K14.",
     "note": COMMON_NOTE + " np.linalg.inv / pinv are oracles: the k x k and least-squares cases are tested on the implementation, not proved; per-security risk history frames are not modelled."}
 CHECKS["C09"] = {
-    "text": "Theorems (partial): the shadow (paper-trading) copy a sub-strategy is set up with is, field for field, the tree that building the same definition "
-            "stand-alone with the default notional gives, and stepping it on a date is exactly one stand-alone backtest step of that tree (update, then run the stack, "
-            "then refresh) -- so by induction over dates the two index series coincide; the child's recorded price is the shadow's price and the parent's universe column "
-            "is that price. Correspondence/relational suite: generated nested backtests (calendar-gated children, any parent schedule incl. never funding a child, "
-            "integer/fractional, commissions) where every child definition is also backtested stand-alone: child.prices = stand-alone prices = parent universe column, "
-            "bit for bit on every date, and every run is also compared with the model.",
-    "note": COMMON_NOTE + " Partial: the theorem is per step under the model's level-closed paper_step (a child of a child is followed one level at a time); children whose stack acts on the "
-            "synthetic pre-start row are excluded by the property's quantifier (calendar-gated stacks) and by the generator."}
+    "text": "Theorems: the shadow (paper-trading) copy a sub-strategy is set up with is, field for field, the tree that building the same definition stand-alone with the "
+            "default notional gives; stepping it on a date is exactly one stand-alone backtest step of that tree (update, run the stack, update, refresh) and, once the "
+            "copy is flagged bankrupt, no step at all — as Backtest.run does; the child's recorded price and price row are the copy's price, and that price is what the "
+            "parent writes into its universe column for the child (unique sibling names). Relational suite: generated nested backtests (calendar-gated children, any "
+            "parent schedule incl. never funding a child, integer/fractional, commissions) where every child definition is also backtested stand-alone: child.prices = "
+            "stand-alone prices = parent universe column, bit for bit on every date; every run is also compared with the model.",
+    "note": COMMON_NOTE + " Partial: the step theorems are per date and per nesting level (paper_step_l); the induction over dates that turns them into equality of whole series "
+            "is carried by the suite. Children whose stack acts on the synthetic pre-start row are outside the property's quantifier (calendar-gated stacks) and the generator. "
+            "A defect found while proving (bankrupt paper copies kept trading) was repaired."}
 CHECKS["C10"] = {
     "text": "Theorems (ill-formed half, every input): an allocation at a missing or zero price, a missing price or coupon on an open position, duplicate ticker "
             "columns, a return on a zero base / zero notional (exact characterisation: the index is kept iff no P&L occurred, otherwise EZeroBase / EZeroNotl), a "
